@@ -82,6 +82,21 @@ static V gen_scalar(char t) {
 static const char TYPES[] = "ihcfdsSbmrTFNIt";
 static void gen_list(std::vector<V> &out, int maxn, bool arrays, const char *only) {
   int n = vf::sized<int>(0, maxn);
+  // two counting runs side by side that share their boundary value, right at the start of the list / array
+  // (the scanner then has exactly one range in front of the second one)
+  if (vf::chance(6)) {
+    const char *cand = only ? only : "ihc";
+    char t = cand[vf::pickn((int)strlen(cand))];
+    if (strchr("ihc", t)) {
+      V s; s.t = t; s.i = t == 'c' ? vf::pick<int>(60, 80) : vf::pick<int>(-50, 50);
+      V d1; d1.t = t; d1.i = vf::coin() ? 1 : -1;
+      V d2; d2.t = t; d2.i = vf::coin() ? 1 : -1;
+      int r1 = vf::pick<int>(2, 7), r2 = vf::pick<int>(2, 7);
+      for (int i = 0; i < r1; i++) out.push_back(avg::nth(s, d1, i));
+      V s2 = out.back();
+      for (int i = 0; i < r2; i++) out.push_back(avg::nth(s2, d2, i));
+    }
+  }
   while ((int)out.size() < n) {
     char t = only ? only[vf::pickn((int)strlen(only))] : (vf::chance(50) ? "ihfds"[vf::pickn(5)] : TYPES[vf::pickn(15)]);
     int k = vf::pickn(12);
